@@ -713,7 +713,10 @@ type wlP struct {
 	ExtraLabel  string
 	IDLabel     string // a *label* with the rollout-id key (the webhook reads the annotation only; a label with that key means nothing to it)
 	ExtraAnno   string
-	Replicas    *int
+	// the workload carries the BatchRelease control-info annotation (a BatchRelease has taken it over). The admission webhook
+	// does not read it: whether a change is held back / corrected must not depend on it
+	CtlInfo  bool
+	Replicas *int
 	RolloutID   string
 	Body        int
 	Hash        string
@@ -777,6 +780,9 @@ func whMeta(p *wlP) metav1.ObjectMeta {
 	an := map[string]string{}
 	if p.ExtraAnno != "" {
 		an["note"] = p.ExtraAnno
+	}
+	if p.CtlInfo {
+		an[util.BatchReleaseControlAnnotation] = `{"apiVersion":"rollouts.kruise.io/v1beta1","kind":"BatchRelease","name":"rollout-demo","uid":"br-uid","controller":true,"blockOwnerDeletion":true}`
 	}
 	if p.RolloutID != "" {
 		an[rolloutIDKey] = p.RolloutID
@@ -1018,6 +1024,7 @@ func (g *whG) workload(combo string) *wlP {
 	if g.p(30) {
 		p.ExtraAnno = "n1"
 	}
+	p.CtlInfo = g.p(35)
 	switch g.n(12) {
 	case 0:
 		p.Replicas = nil
@@ -1065,6 +1072,10 @@ func (g *whG) workload(combo string) *wlP {
 				if g.p(60) {
 					p.StratType = "Recreate"
 					p.StratRU = nil
+					if g.p(70) {
+						// the state BatchRelease.Initialize leaves behind: taken over, paused, Recreate
+						p.CtlInfo, p.Paused = true, true
+					}
 				}
 			case 1: // blue-green
 				p.OrigStrat = `{"maxSurge":"25%"}`
